@@ -569,6 +569,20 @@ theorem pair_order_tie_witness :
       IcePairs.checkOrder .controlling false [h 1, h 2] [h 3, h 4] := by
   decide
 
+/-- **pair_order_prefer_srflx_witness**: with the optional (non-default) `prefer_srflx_over_natted_host` re-sort the
+"same ordering" clause fails even for pairwise DISTINCT pair priorities — `pair_order_agree_stack` and
+`checks_in_pair_priority_order` are about the default configuration (`preferSrflx = false`). The re-sort looks at each
+side's LOCAL candidate: A (local private host `h`, local srflx `s`; remote public host `p`) demotes (h,p) behind (s,p);
+B (local `p`; remotes `h`, `s`) sees no natted local and keeps the priority order. Known finding
+`codec:pair-order:agents-disagree:prefer-srflx-over-natted-host-resort`. -/
+theorem pair_order_prefer_srflx_witness :
+    let h : IcePairs.PCand := ⟨1, priorityFor .host 1, false, 1, false, true, false, true, true⟩
+    let s : IcePairs.PCand := ⟨2, priorityFor .srflx 1, false, 1, false, true, false, false, false⟩
+    let p : IcePairs.PCand := ⟨3, priorityFor .host 1 - 256, false, 1, false, true, false, true, false⟩
+    (IcePairs.checkOrder .controlled true [p] [h, s]).map Prod.swap ≠ IcePairs.checkOrder .controlling true [h, s] [p] ∧
+    (IcePairs.checkOrder .controlled false [p] [h, s]).map Prod.swap = IcePairs.checkOrder .controlling false [h, s] [p] := by
+  decide
+
 /-- **selected_pair_has_highest_priority**: the pair the agent USES (the part of
 `perform_connectivity_checks_async` after the checks: `successful_pairs.sort_by_key(Reverse(priority))`, `[0]`,
 `successful_nominations.sort_by_key(..)`, `.first()`), for any arrival order of the results:
